@@ -71,6 +71,17 @@ def poly_cases(rng, count, sizes):
     return recs
 
 
+def edge_poly_witness():
+    """Lean counterexample `poly_repro_grid_full_false` on the implementation: n=4, linear
+    interpolation, displacement +1.5 cells, constant data 1: destination 0 receives 1/2"""
+    n, it = 4, 2
+    off = [1.5] * n
+    data = [1.0] * (n * n)
+    coef = {(0, r): [1.0, 0.0] for r in range(n)}
+    return dict(id="pedge", axis="y", n=n, it=it, nb=1, lb=0, off=off, data=data, coef=coef, fam="witness",
+                dfam="polyline", interior=False, optext=C.kick_case("pedge", "y", n, it, 1, -1, off, data))
+
+
 def oracle_poly(rec, lines):
     out = corr.floats_of(lines, "out")
     if out is None:
@@ -95,6 +106,8 @@ def oracle_poly(rec, lines):
                 want = sum(a[d] * t ** d for d in range(it))
                 scale = sum(abs(a[d]) * (n ** d) for d in range(it)) * 1.5
                 if not abs(out[cells[y]] - want) <= 64 * U * scale + 1e-30:
+                    if not K.stencil_in(n, it, jd):
+                        rec["table_edge"] = True
                     return "order %d: polynomial of degree %d not reproduced at line (%d,%d) cell %d: %r vs %r" % (
                         it, it - 1, b, r, y, out[cells[y]], want)
     return None
@@ -130,7 +143,7 @@ def explore(chk, harness, nk, npoly, ncoef, sizes, tag):
     rng = lib.Rng(chk.seed, "C02/" + tag)
     crecs = coeff_cases(rng, ncoef)
     krecs = K.gen_kick_cases(rng, nk, sizes, fams=["whole", "wholerow", "frac", "whole"], want_parts=False)
-    precs = poly_cases(rng, npoly, sizes)
+    precs = poly_cases(rng, npoly, sizes) + ([edge_poly_witness()] if tag == "main" else [])
     optexts = {r["id"]: r["optext"] for r in crecs + krecs + precs}
     A, B, mism, drift, san = corr.run_correspondence(chk, harness, optexts, tag)
     fails = []
@@ -204,6 +217,13 @@ def run(chk):
     if san:
         chk.violation("sanitizer/abort in the implementation: " + san[:300],
                       "# harness aborted\n" + san + "\n" + "".join(optexts.values())[:200000], tag="sanitizer")
+    kept = []
+    for r, f in fails:
+        if r.get("table_edge") and chk.known_match("kick-table-edge"):
+            chk.violation(f, "", key="kick-table-edge")
+        else:
+            kept.append((r, f))
+    fails = kept
     for r, f in fails[:1]:
         chk.violation("C02 violated: " + f, "# C02 oracle failure: %s\n%s" % (f, r["optext"]), tag="oracle_" + r["id"])
     broken = []
@@ -215,6 +235,7 @@ def run(chk):
         crecs2, krecs2, precs2, opt2, mism2, drift2, san2, fails2 = explore(
             chk, harness, 800, 800, 5000, [4, 5, 8, 16, 17, 24, 32], "search")
         chk.cov["search"] = {"cases": len(krecs2) + len(precs2), "oracle_failures": len(fails2)}
+        fails2 = [(r, f) for r, f in fails2 if not (r.get("table_edge") and chk.known_match("kick-table-edge"))]
         if fails2:
             r, f = fails2[0]
             chk.violation("C02 violated: %s; broken: %s" % (f, broken[0][:300]),
